@@ -5,324 +5,686 @@
    `list_splice l ts p q = firstn p l ++ ts ++ skipn q l` the list reference.  All theorems hold for every
    load factor LF >= 1, in particular for the LF >= 2 the property names; they cover block splits, merges
    (both outcomes) and rebalancing because they are proved about _update_block itself.
-   `r = Ok tt` in the conclusions says that no IndexError / ValueError / OutOfFuel is reachable. *)
-From AB Require Import StoreTop StoreRefuse StoreRun.
+   `r = Ok tt` in the conclusions says that no IndexError / ValueError / OutOfFuel is reachable.
 
-(* the mutators refine the list splice, keep the invariant, never raise, leave texts alone *)
-Theorem C07_splice_refines : forall LF s tokens ref del_end p q s' r,
-  1 <= LF -> Inv s -> ref_pos (abs s) ref p -> end_pos (abs s) del_end p q ->
-  valid_tokens (abs s) tokens p q ->
+   Store identity.  A store_handle is (store id, block, index); `raw s t` is the handle as stored,
+   `hnd s t` the handle as THIS store sees it (_check_store_handle(token, self): None for a token without
+   a handle - `free` - and for a token whose handle names another store - `foreign`).  The model follows one
+   store; other stores only exist through the foreign handles their tokens carry.  What is proved about
+   them: every operation and observer of this store refuses a foreign reference token and a foreign
+   inserted token (C07_bad_reference_refused, C07_refusals), and leaves every foreign token untouched
+   (C07_foreign_untouched, `frames`).  What is NOT in the model: the effect of a text update of a foreign
+   token on ITS store (Token._update_raw_text calls the token's own store; here it leaves this store alone),
+   and anything another store does to its own tokens.  `pure s` = no foreign token around; histories that
+   start from one fresh store stay pure (TokenStore() / from_tokens are only valid on an empty store, whose
+   tokens are then all free), and under `pure s` "not in the list" and "free" coincide. *)
+From AB Require Import StoreTop StoreRefuse StoreRun.
+From AB Require StoreLinkRepeated StoreLinkComments StoreLinkMisc.
+From AB Require Import StoreLink.
+
+(* ---- the mutators refine the list splice, keep the invariant, never raise, leave texts alone, keep the
+        store's identity, leave the handles of all other tokens alone and detach the removed ones (`frames`) *)
+
+Theorem C07_splice_refines :
+  forall (LF : Z) (s : store) (tokens : list positive) (ref del_end : option positive) 
+    (p q : nat) (s' : store) (r : res unit),
+  1 <= LF ->
+  Inv s ->
+  ref_pos (abs s) ref p ->
+  end_pos (abs s) del_end p q ->
+  valid_tokens s tokens p q ->
   splice LF s tokens ref del_end = (s', r) ->
-  r = Ok tt /\ Inv s' /\ abs s' = list_splice (abs s) tokens p q /\ (forall t, txt s' t = txt s t).
+  r = Ok tt /\
+  Inv s' /\
+  abs s' = list_splice (abs s) tokens p q /\
+  (forall t : positive, txt s' t = txt s t) /\ frames s s' tokens p q.
 Proof. exact splice_spec. Qed.
 
 Example C07_splice_refines_nonvacuous :
   Inv ex_s /\ length (s_blocks ex_s) = 4%nat /\
   ref_pos (abs ex_s) (Some 2%positive) 1 /\ end_pos (abs ex_s) (Some 6%positive) 1 6 /\
-  valid_tokens (abs ex_s) [8; 3]%positive 1 6.
+  valid_tokens ex_s [8; 3]%positive 1 6.
 Proof. exact (conj (proj1 ex_inv) (conj ex_blocks ex_splice_args)). Qed.
 
 (* removed tokens are detached (store_handle = None) *)
-Theorem C07_splice_detaches : forall LF s tokens ref del_end p q s' r,
-  1 <= LF -> Inv s -> ref_pos (abs s) ref p -> end_pos (abs s) del_end p q ->
-  valid_tokens (abs s) tokens p q ->
+
+Theorem C07_splice_detaches :
+  forall (LF : Z) (s : store) (tokens : list positive) (ref del_end : option positive) 
+    (p q : nat) (s' : store) (r : res unit),
+  1 <= LF ->
+  Inv s ->
+  ref_pos (abs s) ref p ->
+  end_pos (abs s) del_end p q ->
+  valid_tokens s tokens p q ->
   splice LF s tokens ref del_end = (s', r) ->
-  forall t, In t (firstn (q - p) (skipn p (abs s))) -> ~ In t tokens -> hnd s' t = None.
+  forall t : positive, In t (firstn (q - p) (skipn p (abs s))) -> ~ In t tokens -> raw s' t = None.
 Proof. exact splice_detaches. Qed.
 
-(* in any state satisfying the invariant: tokens outside the store have no handle, tokens inside know
+
+(* in any state satisfying the invariant: tokens outside the store have no place in it, tokens inside know
    their block and offset, and the block knows its position *)
-Theorem C07_detached : forall s t, Inv s -> ~ In t (abs s) -> hnd s t = None.
+
+Theorem C07_detached :
+  forall (s : store) (t : positive), Inv s -> ~ In t (abs s) -> hnd s t = None.
 Proof. exact detached. Qed.
-Theorem C07_attached : forall s k t, Inv s -> nth_error (abs s) k = Some t ->
-  exists i b j, nth_error (s_blocks s) i = Some b /\ nth_error (toks s b) j = Some t /\
+
+Theorem C07_attached :
+  forall (s : store) (k : nat) (t : positive),
+  Inv s ->
+  nth_error (abs s) k = Some t ->
+  exists (i : nat) (b : positive) (j : nat),
+    nth_error (s_blocks s) i = Some b /\
+    nth_error (toks s b) j = Some t /\
     k = (length (flat_map (toks s) (firstn i (s_blocks s))) + j)%nat /\
     hnd s t = Some (b, Z.of_nat j) /\ bidx s b = Z.of_nat i.
 Proof. exact attached. Qed.
 
-Theorem C07_insert_after_refines : forall LF s tokens ref p s' r,
-  1 <= LF -> Inv s ->
-  match ref with None => p = 0%nat | Some r0 => (1 <= p)%nat /\ nth_error (abs s) (p - 1) = Some r0 end ->
-  NoDup tokens -> (forall t, In t tokens -> ~ In t (abs s)) ->
+Theorem C07_foreign_not_in_store :
+  forall (s : store) (t : positive), Inv s -> foreign s t -> ~ In t (abs s).
+Proof. exact foreign_not_in. Qed.
+
+Theorem C07_insert_after_refines :
+  forall (LF : Z) (s : store) (tokens : list positive) (ref : option positive) 
+    (p : nat) (s' : store) (r : res unit),
+  1 <= LF ->
+  Inv s ->
+  match ref with
+  | Some r0 => (1 <= p)%nat /\ nth_error (abs s) (p - 1) = Some r0
+  | None => p = 0%nat
+  end ->
+  NoDup tokens ->
+  (forall t : positive, In t tokens -> free s t) ->
   insert_after LF s ref tokens = (s', r) ->
-  r = Ok tt /\ Inv s' /\ abs s' = list_splice (abs s) tokens p p /\ (forall t, txt s' t = txt s t).
+  r = Ok tt /\
+  Inv s' /\
+  abs s' = list_splice (abs s) tokens p p /\
+  (forall t : positive, txt s' t = txt s t) /\ frames s s' tokens p p.
 Proof. exact insert_after_spec. Qed.
 
-Theorem C07_insert_before_refines : forall LF s tokens ref p s' r,
-  1 <= LF -> Inv s -> ref_pos (abs s) ref p -> NoDup tokens -> (forall t, In t tokens -> ~ In t (abs s)) ->
+Theorem C07_insert_before_refines :
+  forall (LF : Z) (s : store) (tokens : list positive) (ref : option positive) 
+    (p : nat) (s' : store) (r : res unit),
+  1 <= LF ->
+  Inv s ->
+  ref_pos (abs s) ref p ->
+  NoDup tokens ->
+  (forall t : positive, In t tokens -> free s t) ->
   insert_before LF s ref tokens = (s', r) ->
-  r = Ok tt /\ Inv s' /\ abs s' = list_splice (abs s) tokens p p /\ (forall t, txt s' t = txt s t).
+  r = Ok tt /\
+  Inv s' /\
+  abs s' = list_splice (abs s) tokens p p /\
+  (forall t : positive, txt s' t = txt s t) /\ frames s s' tokens p p.
 Proof. exact insert_before_spec. Qed.
 
-Theorem C07_replace_refines : forall LF s t r0 k s' r,
-  1 <= LF -> Inv s -> nth_error (abs s) k = Some t -> (r0 = t \/ ~ In r0 (abs s)) ->
+Theorem C07_replace_refines :
+  forall (LF : Z) (s : store) (t r0 : positive) (k : nat) (s' : store) (r : res unit),
+  1 <= LF ->
+  Inv s ->
+  nth_error (abs s) k = Some t ->
+  r0 = t \/ free s r0 ->
   replace LF s t r0 = (s', r) ->
-  r = Ok tt /\ Inv s' /\ abs s' = list_splice (abs s) [r0] k (S k) /\ (forall u, txt s' u = txt s u).
+  r = Ok tt /\
+  Inv s' /\
+  abs s' = list_splice (abs s) [r0] k (S k) /\
+  (forall u : positive, txt s' u = txt s u) /\ frames s s' [r0] k (S k).
 Proof. exact replace_spec. Qed.
 
-Theorem C07_remove_refines : forall LF s a b ka kb s' r,
-  1 <= LF -> Inv s -> nth_error (abs s) ka = Some a ->
-  match b with None => kb = ka | Some b0 => (ka <= kb)%nat /\ nth_error (abs s) kb = Some b0 end ->
+Theorem C07_remove_refines :
+  forall (LF : Z) (s : store) (a : positive) (b : option positive) (ka kb : nat) 
+    (s' : store) (r : res unit),
+  1 <= LF ->
+  Inv s ->
+  nth_error (abs s) ka = Some a ->
+  match b with
+  | Some b0 => (ka <= kb)%nat /\ nth_error (abs s) kb = Some b0
+  | None => kb = ka
+  end ->
   remove LF s a b = (s', r) ->
-  r = Ok tt /\ Inv s' /\ abs s' = list_splice (abs s) [] ka (S kb) /\ (forall u, txt s' u = txt s u).
+  r = Ok tt /\
+  Inv s' /\
+  abs s' = list_splice (abs s) [] ka (S kb) /\
+  (forall u : positive, txt s' u = txt s u) /\ frames s s' [] ka (S kb).
 Proof. exact remove_spec. Qed.
 
 Example C07_mutators_nonvacuous :
   Inv ex_s /\ nth_error (abs ex_s) 2 = Some 3%positive /\ nth_error (abs ex_s) 5 = Some 6%positive /\
-  ~ In 9%positive (abs ex_s).
+  free ex_s 9%positive.
 Proof.
-  split; [exact (proj1 ex_inv)|]. rewrite (proj2 ex_inv). cbn. intuition discriminate.
+  split; [exact (proj1 ex_inv)|]. rewrite (proj2 ex_inv). split; [reflexivity|]. split; [reflexivity|vm_compute; reflexivity].
 Qed.
+
+(* `frames` keep the absence of foreign tokens *)
+
+Theorem C07_frames_keep_purity :
+  forall (s s' : store) (tokens : list positive) (p q : nat),
+  Inv s ->
+  Inv s' ->
+  (p <= q)%nat ->
+  abs s' = firstn p (abs s) ++ tokens ++ skipn q (abs s) ->
+  frames s s' tokens p q -> pure s -> pure s'.
+Proof. exact frames_pure. Qed.
+
 
 (* the block-level statement underneath (start/end given as (block, offset) pairs), covering the fast
    path, _update_block (rebuild / merge / split) and the multi-block path *)
-Theorem C07_splice_block_level : forall LF s tokens si sj ei ej bs be s' r,
-  1 <= LF -> Inv s ->
-  nth_error (s_blocks s) si = Some bs -> nth_error (s_blocks s) ei = Some be ->
-  (sj <= length (toks s bs))%nat -> (ej <= length (toks s be))%nat ->
-  (si < ei \/ (si = ei /\ sj <= ej))%nat ->
+
+Theorem C07_splice_block_level :
+  forall (LF : Z) (s : store) (tokens : list positive) (si sj ei ej : nat) 
+    (bs be : positive) (s' : store) (r : res unit),
+  1 <= LF ->
+  Inv s ->
+  nth_error (s_blocks s) si = Some bs ->
+  nth_error (s_blocks s) ei = Some be ->
+  (sj <= length (toks s bs))%nat ->
+  (ej <= length (toks s be))%nat ->
+  (si < ei)%nat \/ si = ei /\ (sj <= ej)%nat ->
   NoDup tokens ->
-  let F n := length (flat_map (toks s) (firstn n (s_blocks s))) in
-  let p := (F si + sj)%nat in let q := (F ei + ej)%nat in
-  (forall t, In t tokens -> ~ In t (abs s) \/ In t (firstn (q - p) (skipn p (abs s)))) ->
+  let F := fun n : nat => length (flat_map (toks s) (firstn n (s_blocks s))) in
+  let p := (F si + sj)%nat in
+  let q := (F ei + ej)%nat in
+  (forall t : positive, In t tokens -> free s t \/ In t (firstn (q - p) (skipn p (abs s)))) ->
   splice_ LF s tokens (Z.of_nat si, Z.of_nat sj) (Z.of_nat ei, Z.of_nat ej) = (s', r) ->
-  r = Ok tt /\ Inv s' /\ abs s' = firstn p (abs s) ++ tokens ++ skipn q (abs s) /\
-  (forall t, txt s' t = txt s t).
+  r = Ok tt /\
+  Inv s' /\
+  abs s' = firstn p (abs s) ++ tokens ++ skipn q (abs s) /\
+  (forall t : positive, txt s' t = txt s t) /\
+  s_id s' = s_id s /\
+  (forall t : positive, ~ In t (abs s) -> ~ In t tokens -> raw s' t = raw s t) /\
+  (forall t : positive, In t (firstn (q - p) (skipn p (abs s))) -> ~ In t tokens -> raw s' t = None).
 Proof. exact splice__spec. Qed.
 
+
 (* _update_block repairs a store in which only block b is stale, without changing the sequence *)
-Theorem C07_update_block : forall LF s b s' r,
-  1 <= LF -> InvG (eq b) s -> In b (s_blocks s) -> update_block LF s b = (s', r) ->
-  r = Ok tt /\ Inv0 s' /\ abs s' = abs s /\ frame_ok s s'.
+
+Theorem C07_update_block :
+  forall (LF : Z) (s : store) (b : positive) (s' : store) (r : res unit),
+  1 <= LF ->
+  InvG (eq b) s ->
+  In b (s_blocks s) ->
+  update_block LF s b = (s', r) -> r = Ok tt /\ Inv0 s' /\ abs s' = abs s /\ frame_ok s s'.
 Proof. exact update_block_spec. Qed.
 
-(* observers = list functions on the abstraction *)
-Theorem C07_observers : forall s, Inv s ->
-  all_tokens s = abs s /\ len s = zlen (abs s) /\
-  get_first s = Ok (nth_error (abs s) 0) /\ get_last s = Ok (nth_error (abs s) (length (abs s) - 1)) /\
-  (forall k t, nth_error (abs s) k = Some t ->
-     get_index s t = Ok (Z.of_nat k) /\
-     get_prev s t = Ok (match k with O => None | S k' => nth_error (abs s) k' end) /\
-     get_next s t = Ok (nth_error (abs s) (S k))) /\
-  (forall k1 k2 a b, nth_error (abs s) k1 = Some a -> nth_error (abs s) k2 = Some b -> (k1 <= k2)%nat ->
-     iter_range s a b = Ok (firstn (k2 + 1 - k1) (skipn k1 (abs s)))) /\
-  (forall t, ~ In t (abs s) ->
-     get_index s t = Err ValueError /\ get_prev s t = Err ValueError /\ get_next s t = Err ValueError).
+
+(* ---- observers = list functions on the abstraction; tokens that are not in this store (free or foreign)
+        make every observer raise ValueError *)
+
+Theorem C07_observers :
+  forall s : store,
+  Inv s ->
+  all_tokens s = abs s /\
+  len s = zlen (abs s) /\
+  get_first s = Ok (nth_error (abs s) 0) /\
+  get_last s = Ok (nth_error (abs s) (length (abs s) - 1)) /\
+  (forall (k : nat) (t : positive),
+   nth_error (abs s) k = Some t ->
+   get_index s t = Ok (Z.of_nat k) /\
+   get_prev s t = Ok match k with
+                     | 0%nat => None
+                     | S k' => nth_error (abs s) k'
+                     end /\ get_next s t = Ok (nth_error (abs s) (S k))) /\
+  (forall (k1 k2 : nat) (a b : positive),
+   nth_error (abs s) k1 = Some a ->
+   nth_error (abs s) k2 = Some b ->
+   (k1 <= k2)%nat -> iter_range s a b = Ok (firstn (k2 + 1 - k1) (skipn k1 (abs s)))) /\
+  (forall t : positive,
+   ~ In t (abs s) ->
+   get_index s t = Err ValueError /\
+   get_prev s t = Err ValueError /\
+   get_next s t = Err ValueError /\
+   get_position s t = Err ValueError /\
+   (forall u : positive, iter_range s t u = Err ValueError /\ iter_range s u t = Err ValueError)).
 Proof. exact observers_spec. Qed.
 
 Example C07_observers_nonvacuous : Inv ex_s /\ abs ex_s = ex_ids /\ length (s_blocks ex_s) = 4%nat.
 Proof. exact (conj (proj1 ex_inv) (conj (proj2 ex_inv) ex_blocks)). Qed.
 
-(* constructors establish the invariant *)
-Theorem C07_empty_store : forall tk, clean tk -> Inv (empty_store tk) /\ abs (empty_store tk) = [].
+(* ---- constructors establish the invariant *)
+
+Theorem C07_empty_store :
+  forall (sid : positive) (tk : tokmap),
+  clean tk -> Inv (empty_store sid tk) /\ abs (empty_store sid tk) = [].
 Proof. exact empty_inv. Qed.
-Theorem C07_from_tokens : forall LF tk ts s' r, 1 <= LF -> clean tk -> NoDup ts ->
-  from_tokens LF tk ts = (s', r) ->
-  r = Ok tt /\ Inv s' /\ abs s' = ts /\ (forall t, txt s' t = t_text (tget tk t)).
+
+Theorem C07_from_tokens :
+  forall (LF : Z) (sid : positive) (tk : tokmap) (ts : list positive) (s' : store) (r : res unit),
+  1 <= LF ->
+  clean tk ->
+  NoDup ts ->
+  from_tokens LF sid tk ts = (s', r) ->
+  r = Ok tt /\
+  Inv s' /\
+  abs s' = ts /\ (forall t : positive, txt s' t = t_text (tget tk t)) /\ s_id s' = sid /\ pure s'.
 Proof. exact from_tokens_spec. Qed.
 
 Example C07_constructors_nonvacuous : clean ex_tk /\ NoDup ex_ids.
 Proof. exact (conj ex_clean ex_ids_nodup). Qed.
 
-(* histories: every step returns normally, the invariant holds after every step, the contents and the
-   texts follow the list reference (good_run), for every load factor *)
-Theorem C07_history : forall LF, 1 <= LF -> forall ops s, Inv s -> ops_valid (abs s) ops -> good_run LF s ops.
+(* ---- histories: every step returns normally, the invariant holds after every step, the contents and the
+        texts follow the list reference (good_run), for every load factor *)
+
+Theorem C07_history :
+  forall LF : Z,
+  1 <= LF ->
+  forall (ops : list sop) (s : store), Inv s -> pure s -> ops_valid (abs s) ops -> good_run LF s ops.
 Proof. exact history_refines. Qed.
 
-Theorem C07_history_final : forall LF, 1 <= LF -> forall ops s, Inv s -> ops_valid (abs s) ops ->
-  Inv (run_ops LF s ops) /\ abs (run_ops LF s ops) = ref_run (abs s) ops /\
-  (forall t, txt (run_ops LF s ops) t = ref_texts (txt s) ops t).
+Theorem C07_history_final :
+  forall LF : Z,
+  1 <= LF ->
+  forall (ops : list sop) (s : store),
+  Inv s ->
+  pure s ->
+  ops_valid (abs s) ops ->
+  Inv (run_ops LF s ops) /\
+  abs (run_ops LF s ops) = ref_run (abs s) ops /\
+  (forall t : positive, txt (run_ops LF s ops) t = ref_texts (txt s) ops t).
 Proof. exact run_ops_spec. Qed.
 
-Example C07_history_nonvacuous : Inv ex_s /\ ops_valid (abs ex_s) ex_ops /\ length ex_ops = 7%nat.
-Proof. exact (conj (proj1 ex_inv) (conj ex_ops_valid eq_refl)). Qed.
+Example C07_history_nonvacuous : Inv ex_s /\ pure ex_s /\ ops_valid (abs ex_s) ex_ops /\ length ex_ops = 7%nat.
+Proof. exact (conj (proj1 ex_inv) (conj ex_pure (conj ex_ops_valid eq_refl))). Qed.
 
-(* Refusals (reuse guard `block.store is self and start <= (block.index, index) < end`; the model has one
-   store, so only the range part is modelled).  Arguments that break the contract of a duplicate-free
-   token list - some inserted token is in the store but outside the removed range [p, q) - are refused with
-   ValueError and the store is returned unchanged.  (A token listed twice in `tokens` is not checked by
-   the code; NoDup is a hypothesis.) *)
-Theorem C07_refusals : forall LF s tokens ref del_end p q,
-  Inv s -> ref_pos (abs s) ref p -> end_pos (abs s) del_end p q ->
-  NoDup tokens -> ~ valid_tokens (abs s) tokens p q ->
-  splice LF s tokens ref del_end = (s, Err ValueError).
+(* ---- refusals: the full contract.  A call whose token list is not valid - a token listed twice, a token
+        of this store outside the removed range [p, q), a token of another store - is refused with
+        ValueError and the store is returned unchanged; so is a reversed range, a reference token that is
+        free or foreign (for every mutator and observer), and a text update routed to the wrong store. *)
+
+Theorem C07_refusals :
+  forall (LF : Z) (s : store) (tokens : list positive) (ref del_end : option positive) (p q : nat),
+  Inv s ->
+  ref_pos (abs s) ref p ->
+  end_pos (abs s) del_end p q ->
+  ~ valid_tokens s tokens p q -> splice LF s tokens ref del_end = (s, Err ValueError).
 Proof. exact splice_refusals. Qed.
 
 Example C07_refusals_nonvacuous :
   Inv ex_s /\ ref_pos (abs ex_s) (Some 3%positive) 2 /\ end_pos (abs ex_s) None 2 2 /\
-  NoDup [3%positive] /\ ~ valid_tokens (abs ex_s) [3%positive] 2 2.
+  ~ valid_tokens ex_s [3%positive] 2 2 /\ ~ valid_tokens ex_s [8; 8]%positive 2 2.
 Proof.
-  split; [exact (proj1 ex_inv)|]. rewrite (proj2 ex_inv). split; [reflexivity|]. split; [reflexivity|].
-  split; [repeat constructor; intros []|].
-  intros [_ H]. destruct (H 3%positive (in_eq _ _)) as [Hn|Hr]; [apply Hn; cbn; auto|exact Hr].
+  split; [exact (proj1 ex_inv)|]. unfold valid_tokens. rewrite (proj2 ex_inv). split; [reflexivity|]. split; [reflexivity|]. split.
+  - intros [_ H]. destruct (H 3%positive (in_eq _ _)) as [Hn|Hr]; [vm_compute in Hn; discriminate|exact Hr].
+  - intros [ND _]. inversion ND as [|? ? N _]; subst. apply N. left. reflexivity.
 Qed.
 
-(* per token: every store token outside [p, q) among the inserted tokens is refused *)
-Theorem C07_refuses_outside_range : forall LF s tokens ref del_end p q t k,
-  Inv s -> ref_pos (abs s) ref p -> end_pos (abs s) del_end p q ->
-  In t tokens -> nth_error (abs s) k = Some t -> (k < p \/ q <= k)%nat ->
-  splice LF s tokens ref del_end = (s, Err ValueError).
+
+Theorem C07_refuses_outside_range :
+  forall (LF : Z) (s : store) (tokens : list positive) (ref del_end : option positive) 
+    (p q : nat) (t : positive) (k : nat),
+  Inv s ->
+  ref_pos (abs s) ref p ->
+  end_pos (abs s) del_end p q ->
+  In t tokens ->
+  nth_error (abs s) k = Some t ->
+  (k < p)%nat \/ (q <= k)%nat -> splice LF s tokens ref del_end = (s, Err ValueError).
 Proof. exact splice_refuses. Qed.
 
-Theorem C07_insert_after_refuses : forall LF s tokens ref p t,
+Theorem C07_insert_after_refuses :
+  forall (LF : Z) (s : store) (tokens : list positive) (ref : option positive) 
+    (p : nat) (t : positive),
   Inv s ->
-  match ref with None => p = 0%nat | Some r0 => (1 <= p)%nat /\ nth_error (abs s) (p - 1) = Some r0 end ->
-  In t tokens -> In t (abs s) ->
-  insert_after LF s ref tokens = (s, Err ValueError).
+  match ref with
+  | Some r0 => (1 <= p)%nat /\ nth_error (abs s) (p - 1) = Some r0
+  | None => p = 0%nat
+  end -> In t tokens -> ~ free s t -> insert_after LF s ref tokens = (s, Err ValueError).
 Proof. exact insert_after_refuses. Qed.
+
+Theorem C07_bad_reference_refused :
+  forall (LF : Z) (s : store) (r : positive) (ts : list positive) (d0 : option positive),
+  hnd s r = None ->
+  splice LF s ts (Some r) d0 = (s, Err ValueError) /\
+  insert_before LF s (Some r) ts = (s, Err ValueError) /\
+  insert_after LF s (Some r) ts = (s, Err ValueError) /\
+  remove LF s r d0 = (s, Err ValueError) /\
+  (forall x : positive, replace LF s r x = (s, Err ValueError)) /\
+  get_index s r = Err ValueError /\
+  get_position s r = Err ValueError /\
+  get_prev s r = Err ValueError /\
+  get_next s r = Err ValueError /\
+  (forall u : positive, iter_range s r u = Err ValueError /\ iter_range s u r = Err ValueError) /\
+  (forall z : pos, update s r z = (s, Err ValueError)).
+Proof. exact bad_reference_refused. Qed.
+
+Theorem C07_bad_end_refused :
+  forall (LF : Z) (s : store) (r : option positive) (e : positive) (ts : list positive),
+  hnd s e = None -> splice LF s ts r (Some e) = (s, Err ValueError).
+Proof. exact bad_end_refused. Qed.
+
+
+(* a reversed range.  NOTE (finding): the code compares `end < start` on (block.index, index) pairs with
+   end = position AFTER del_end, so for del_end = the token just before ref the outcome depends on the block
+   layout (refused when they lie in different blocks, treated as an insertion before ref when in the same
+   block); del_end strictly earlier than that is always refused: *)
+
+Theorem C07_reversed_range_refused :
+  forall (LF : Z) (s : store) (tokens : list positive) (r e : positive) (p kd : nat),
+  Inv s ->
+  nth_error (abs s) p = Some r ->
+  nth_error (abs s) kd = Some e ->
+  (kd + 1 < p)%nat -> splice LF s tokens (Some r) (Some e) = (s, Err ValueError).
+Proof. exact splice_reversed_refused. Qed.
+
+Example C07_reversed_range_nonvacuous : Inv ex_s /\ nth_error (abs ex_s) 4 = Some 5%positive /\ nth_error (abs ex_s) 1 = Some 2%positive.
+Proof. split; [exact (proj1 ex_inv)|]. rewrite (proj2 ex_inv). split; reflexivity. Qed.
+
+(* the frame between stores: a token of another store is untouched by a valid splice and stays foreign;
+   a text update never touches any handle or the identity of the store *)
+
+Theorem C07_foreign_untouched :
+  forall (LF : Z) (s : store) (tokens : list positive) (ref del_end : option positive) 
+    (p q : nat) (s' : store) (r : res unit) (t : positive),
+  1 <= LF ->
+  Inv s ->
+  ref_pos (abs s) ref p ->
+  end_pos (abs s) del_end p q ->
+  valid_tokens s tokens p q ->
+  splice LF s tokens ref del_end = (s', r) ->
+  foreign s t -> raw s' t = raw s t /\ txt s' t = txt s t /\ foreign s' t.
+Proof. exact foreign_untouched. Qed.
+
+Theorem C07_set_text_keeps_handles :
+  forall (s : store) (t : positive) (x : str),
+  s_id (fst (set_text s t x)) = s_id s /\
+  (forall u : positive, raw (fst (set_text s t x)) u = raw s u).
+Proof. exact set_text_raw. Qed.
+
 
 (* ------------------------------------------------------------------------------------------------
    Links to the plain-list models of the other layers (DESIGN 3.1: "every L2/L3 store operation is the
    list operation L1 refines").  A document d of a list model represents the store s when
    abs s = map (Pid id) d, Pid x = P (id x) being the store's token for the model token x (ids positive).
    Each theorem says: what the model's list surgery computes is what the blocked store computes, for every
-   load factor; refusals agree (ValueError, store unchanged). *)
-From AB Require StoreLinkRepeated StoreLinkComments StoreLinkMisc.
-From AB Require Import StoreLink.
+   load factor; refusals agree (ValueError, store unchanged).  The list models know one store only, hence
+   `pure s` (no tokens of other stores); it is preserved (`pure s'`). *)
 
 (* Repeated.v / Fields.v (Fields.v calls the same Repeated.st_ functions) *)
-Theorem C07_link_Repeated_insert_after : forall LF, 1 <= LF -> forall s d, Inv s ->
-  abs s = map (Pid Repeated.tid) d -> ids_pos Repeated.tid d ->
-  forall ref ts, 0 < ref -> ids_pos Repeated.tid ts -> NoDup (map Repeated.tid ts) ->
+
+Theorem C07_link_Repeated_insert_after :
+  forall LF : Z,
+  1 <= LF ->
+  forall (s : store) (d : Repeated.doc),
+  Inv s ->
+  pure s ->
+  abs s = map (Pid Repeated.tid) d ->
+  ids_pos Repeated.tid d ->
+  forall (ref : Z) (ts : list Repeated.tok),
+  0 < ref ->
+  ids_pos Repeated.tid ts ->
+  NoDup (map Repeated.tid ts) ->
   match Repeated.st_insert_after ref ts d with
-  | Ok d' => let s' := fst (insert_after LF s (Some (P ref)) (map (Pid Repeated.tid) ts)) in
-             insert_after LF s (Some (P ref)) (map (Pid Repeated.tid) ts) = (s', Ok tt) /\ Inv s' /\
-             abs s' = map (Pid Repeated.tid) d' /\ (forall u, txt s' u = txt s u)
-  | Err e => e = ValueError /\ insert_after LF s (Some (P ref)) (map (Pid Repeated.tid) ts) = (s, Err ValueError)
+  | Ok d' =>
+      let s' := fst (insert_after LF s (Some (P ref)) (map (Pid Repeated.tid) ts)) in
+      insert_after LF s (Some (P ref)) (map (Pid Repeated.tid) ts) = (s', Ok tt) /\
+      Inv s' /\
+      abs s' = map (Pid Repeated.tid) d' /\
+      (forall u : positive, txt s' u = txt s u) /\ pure s'
+  | Err e =>
+      e = ValueError /\
+      insert_after LF s (Some (P ref)) (map (Pid Repeated.tid) ts) = (s, Err ValueError)
   end.
 Proof. exact StoreLinkRepeated.link_insert_after. Qed.
 
-Theorem C07_link_Repeated_insert_before : forall LF, 1 <= LF -> forall s d, Inv s ->
-  abs s = map (Pid Repeated.tid) d -> ids_pos Repeated.tid d ->
-  forall ref ts, 0 < ref -> ids_pos Repeated.tid ts -> NoDup (map Repeated.tid ts) ->
+Theorem C07_link_Repeated_insert_before :
+  forall LF : Z,
+  1 <= LF ->
+  forall (s : store) (d : Repeated.doc),
+  Inv s ->
+  pure s ->
+  abs s = map (Pid Repeated.tid) d ->
+  ids_pos Repeated.tid d ->
+  forall (ref : Z) (ts : list Repeated.tok),
+  0 < ref ->
+  ids_pos Repeated.tid ts ->
+  NoDup (map Repeated.tid ts) ->
   match Repeated.st_insert_before ref ts d with
-  | Ok d' => let s' := fst (insert_before LF s (Some (P ref)) (map (Pid Repeated.tid) ts)) in
-             insert_before LF s (Some (P ref)) (map (Pid Repeated.tid) ts) = (s', Ok tt) /\ Inv s' /\
-             abs s' = map (Pid Repeated.tid) d' /\ (forall u, txt s' u = txt s u)
-  | Err e => e = ValueError /\ insert_before LF s (Some (P ref)) (map (Pid Repeated.tid) ts) = (s, Err ValueError)
+  | Ok d' =>
+      let s' := fst (insert_before LF s (Some (P ref)) (map (Pid Repeated.tid) ts)) in
+      insert_before LF s (Some (P ref)) (map (Pid Repeated.tid) ts) = (s', Ok tt) /\
+      Inv s' /\
+      abs s' = map (Pid Repeated.tid) d' /\
+      (forall u : positive, txt s' u = txt s u) /\ pure s'
+  | Err e =>
+      e = ValueError /\
+      insert_before LF s (Some (P ref)) (map (Pid Repeated.tid) ts) = (s, Err ValueError)
   end.
 Proof. exact StoreLinkRepeated.link_insert_before. Qed.
 
-Theorem C07_link_Repeated_splice : forall LF, 1 <= LF -> forall s d, Inv s ->
-  abs s = map (Pid Repeated.tid) d -> ids_pos Repeated.tid d ->
-  forall ts first last d', ids_pos Repeated.tid ts -> NoDup (map Repeated.tid ts) ->
+Theorem C07_link_Repeated_splice :
+  forall LF : Z,
+  1 <= LF ->
+  forall (s : store) (d : Repeated.doc),
+  Inv s ->
+  pure s ->
+  abs s = map (Pid Repeated.tid) d ->
+  ids_pos Repeated.tid d ->
+  forall (ts : list Repeated.tok) (first last : Z) (d' : Repeated.doc),
+  ids_pos Repeated.tid ts ->
+  NoDup (map Repeated.tid ts) ->
   Repeated.st_splice ts first last d = Ok d' ->
-  let s' := fst (splice LF s (map (Pid Repeated.tid) ts) (Some (P first)) (Some (P last))) in
-  splice LF s (map (Pid Repeated.tid) ts) (Some (P first)) (Some (P last)) = (s', Ok tt) /\ Inv s' /\
-  abs s' = map (Pid Repeated.tid) d' /\ (forall u, txt s' u = txt s u).
+  let s' := fst (splice LF s (map (Pid Repeated.tid) ts) (Some (P first)) (Some (P last)))
+    in
+  splice LF s (map (Pid Repeated.tid) ts) (Some (P first)) (Some (P last)) = (s', Ok tt) /\
+  Inv s' /\
+  abs s' = map (Pid Repeated.tid) d' /\
+  (forall u : positive, txt s' u = txt s u) /\ pure s'.
 Proof. exact StoreLinkRepeated.link_splice. Qed.
 
-Theorem C07_link_Repeated_remove : forall LF, 1 <= LF -> forall s d, Inv s ->
-  abs s = map (Pid Repeated.tid) d -> ids_pos Repeated.tid d ->
-  forall first last d', Repeated.st_remove first last d = Ok d' ->
+Theorem C07_link_Repeated_remove :
+  forall LF : Z,
+  1 <= LF ->
+  forall (s : store) (d : Repeated.doc),
+  Inv s ->
+  pure s ->
+  abs s = map (Pid Repeated.tid) d ->
+  ids_pos Repeated.tid d ->
+  forall (first last : Z) (d' : Repeated.doc),
+  Repeated.st_remove first last d = Ok d' ->
   let s' := fst (remove LF s (P first) (Some (P last))) in
-  remove LF s (P first) (Some (P last)) = (s', Ok tt) /\ Inv s' /\
-  abs s' = map (Pid Repeated.tid) d' /\ (forall u, txt s' u = txt s u).
+  remove LF s (P first) (Some (P last)) = (s', Ok tt) /\
+  Inv s' /\
+  abs s' = map (Pid Repeated.tid) d' /\
+  (forall u : positive, txt s' u = txt s u) /\ pure s'.
 Proof. exact StoreLinkRepeated.link_remove. Qed.
 
-Theorem C07_link_Repeated_absent : forall LF s d, Inv s ->
-  abs s = map (Pid Repeated.tid) d -> ids_pos Repeated.tid d ->
-  forall first last ts, 0 < first -> 0 < last ->
-  (~ In first (Repeated.ids d) \/ ~ In last (Repeated.ids d)) ->
+Theorem C07_link_Repeated_absent :
+  forall (LF : Z) (s : store) (d : Repeated.doc),
+  Inv s ->
+  abs s = map (Pid Repeated.tid) d ->
+  ids_pos Repeated.tid d ->
+  forall (first last : Z) (ts : list Repeated.tok),
+  0 < first ->
+  0 < last ->
+  ~ In first (Repeated.ids d) \/ ~ In last (Repeated.ids d) ->
   Repeated.st_splice ts first last d = Err ValueError /\
-  splice LF s (map (Pid Repeated.tid) ts) (Some (P first)) (Some (P last)) = (s, Err ValueError).
+  splice LF s (map (Pid Repeated.tid) ts) (Some (P first)) (Some (P last)) =
+  (s, Err ValueError).
 Proof. exact StoreLinkRepeated.link_absent. Qed.
 
-Theorem C07_link_Repeated_get_prev_next : forall (LF : Z) s d, Inv s ->
-  abs s = map (Pid Repeated.tid) d -> ids_pos Repeated.tid d -> forall i, 0 < i ->
-  Repeated.st_get_prev i d = match get_prev s (P i) with Ok o => Ok (option_map Zpos o) | Err e => Err e end /\
-  Repeated.st_get_next i d = match get_next s (P i) with Ok o => Ok (option_map Zpos o) | Err e => Err e end.
+Theorem C07_link_Repeated_get_prev_next :
+  Z ->
+  forall (s : store) (d : Repeated.doc),
+  Inv s ->
+  abs s = map (Pid Repeated.tid) d ->
+  ids_pos Repeated.tid d ->
+  forall i : Z,
+  0 < i ->
+  Repeated.st_get_prev i d =
+  match get_prev s (P i) with
+  | Ok o => Ok (option_map Z.pos o)
+  | Err e => Err e
+  end /\
+  Repeated.st_get_next i d =
+  match get_next s (P i) with
+  | Ok o => Ok (option_map Z.pos o)
+  | Err e => Err e
+  end.
 Proof. exact StoreLinkRepeated.link_get_prev_next. Qed.
 
-Theorem C07_link_Repeated_iter : forall s d, Inv s -> abs s = map (Pid Repeated.tid) d ->
-  forall first last, Repeated.st_iter first last d <> [] ->
-  iter_range s (P first) (P last) = Ok (map (Pid Repeated.tid) (Repeated.st_iter first last d)).
+Theorem C07_link_Repeated_iter :
+  forall (s : store) (d : Repeated.doc),
+  Inv s ->
+  abs s = map (Pid Repeated.tid) d ->
+  forall first last : Z,
+  Repeated.st_iter first last d <> [] ->
+  iter_range s (P first) (P last) =
+  Ok (map (Pid Repeated.tid) (Repeated.st_iter first last d)).
 Proof. exact StoreLinkRepeated.link_iter. Qed.
 
 Definition ex_rdoc : Repeated.doc := map (fun i => Repeated.mktok i Repeated.KOther []) [1; 2; 3; 4; 5; 6; 7].
 Example C07_link_Repeated_nonvacuous :
-  Inv ex_s /\ abs ex_s = map (Pid Repeated.tid) ex_rdoc /\ ids_pos Repeated.tid ex_rdoc /\
+  Inv ex_s /\ pure ex_s /\ abs ex_s = map (Pid Repeated.tid) ex_rdoc /\ ids_pos Repeated.tid ex_rdoc /\
   Repeated.st_splice [Repeated.mktok 9 Repeated.KOther []] 2 5 ex_rdoc
     = Ok (map (fun i => Repeated.mktok i Repeated.KOther []) [1; 9; 6; 7]).
 Proof.
-  split; [exact (proj1 ex_inv)|]. split; [rewrite (proj2 ex_inv); reflexivity|]. split; [|reflexivity].
+  split; [exact (proj1 ex_inv)|]. split; [exact ex_pure|]. split; [rewrite (proj2 ex_inv); reflexivity|]. split; [|reflexivity].
   unfold ids_pos, ex_rdoc. repeat constructor.
 Qed.
 
 (* Comments.v *)
-Theorem C07_link_Comments_splice : forall LF, 1 <= LF -> forall s d, Inv s ->
-  abs s = map (Pid Comments.t_id) d -> ids_pos Comments.t_id d ->
-  forall new ref del_end d', ids_pos Comments.t_id new -> NoDup (map Comments.t_id new) ->
-  (forall x, In x new -> ~ In (Comments.t_id x) (map Comments.t_id d) \/
-      exists rng, Comments.iter_range d ref del_end = Some rng /\ In (Comments.t_id x) (map Comments.t_id rng)) ->
+
+Theorem C07_link_Comments_splice :
+  forall LF : Z,
+  1 <= LF ->
+  forall (s : store) (d : Comments.doc),
+  Inv s ->
+  pure s ->
+  abs s = map (Pid Comments.t_id) d ->
+  ids_pos Comments.t_id d ->
+  forall (new : list Comments.tok) (ref del_end : Z) (d' : Comments.doc),
+  ids_pos Comments.t_id new ->
+  NoDup (map Comments.t_id new) ->
+  (forall x : Comments.tok,
+   In x new ->
+   ~ In (Comments.t_id x) (map Comments.t_id d) \/
+   (exists rng : list Comments.tok,
+      Comments.iter_range d ref del_end = Some rng /\
+      In (Comments.t_id x) (map Comments.t_id rng))) ->
   Comments.splice d new ref del_end = Some d' ->
-  let s' := fst (splice LF s (map (Pid Comments.t_id) new) (Some (P ref)) (Some (P del_end))) in
-  splice LF s (map (Pid Comments.t_id) new) (Some (P ref)) (Some (P del_end)) = (s', Ok tt) /\ Inv s' /\
-  abs s' = map (Pid Comments.t_id) d' /\ (forall u, txt s' u = txt s u).
+  let s' :=
+    fst (splice LF s (map (Pid Comments.t_id) new) (Some (P ref)) (Some (P del_end))) in
+  splice LF s (map (Pid Comments.t_id) new) (Some (P ref)) (Some (P del_end)) = (s', Ok tt) /\
+  Inv s' /\
+  abs s' = map (Pid Comments.t_id) d' /\
+  (forall u : positive, txt s' u = txt s u) /\ pure s'.
 Proof. exact StoreLinkComments.link_splice. Qed.
 
-Theorem C07_link_Comments_splice_absent : forall LF s d, Inv s ->
-  abs s = map (Pid Comments.t_id) d -> ids_pos Comments.t_id d ->
-  forall new ref del_end, 0 < ref -> 0 < del_end ->
-  (~ In ref (map Comments.t_id d) \/ ~ In del_end (map Comments.t_id d)) ->
+Theorem C07_link_Comments_splice_absent :
+  forall (LF : Z) (s : store) (d : Comments.doc),
+  Inv s ->
+  abs s = map (Pid Comments.t_id) d ->
+  ids_pos Comments.t_id d ->
+  forall (new : list Comments.tok) (ref del_end : Z),
+  0 < ref ->
+  0 < del_end ->
+  ~ In ref (map Comments.t_id d) \/ ~ In del_end (map Comments.t_id d) ->
   Comments.splice d new ref del_end = None /\
-  splice LF s (map (Pid Comments.t_id) new) (Some (P ref)) (Some (P del_end)) = (s, Err ValueError).
+  splice LF s (map (Pid Comments.t_id) new) (Some (P ref)) (Some (P del_end)) =
+  (s, Err ValueError).
 Proof. exact StoreLinkComments.link_splice_absent. Qed.
 
-Theorem C07_link_Comments_iter_range : forall s d, Inv s -> abs s = map (Pid Comments.t_id) d ->
-  forall first last rng, Comments.iter_range d first last = Some rng -> rng <> [] ->
-  iter_range s (P first) (P last) = Ok (map (Pid Comments.t_id) rng).
+Theorem C07_link_Comments_iter_range :
+  forall (s : store) (d : Comments.doc),
+  Inv s ->
+  abs s = map (Pid Comments.t_id) d ->
+  forall (first last : Z) (rng : list Comments.tok),
+  Comments.iter_range d first last = Some rng ->
+  rng <> [] -> iter_range s (P first) (P last) = Ok (map (Pid Comments.t_id) rng).
 Proof. exact StoreLinkComments.link_iter_range. Qed.
 
-Theorem C07_link_Comments_walk : forall s d, Inv s -> abs s = map (Pid Comments.t_id) d ->
-  forall start a t b, Comments.split_at start d = Some (a, t :: b) ->
-  get_next s (P start) = Ok (option_map (Pid Comments.t_id) (match b with [] => None | x :: _ => Some x end)) /\
-  get_prev s (P start) = Ok (option_map (Pid Comments.t_id) (match a with [] => None | x :: r => Some (last r x) end)) /\
-  Comments.walk d start false = Some b /\ Comments.walk d start true = Some (rev a).
+Theorem C07_link_Comments_walk :
+  forall (s : store) (d : Comments.doc),
+  Inv s ->
+  abs s = map (Pid Comments.t_id) d ->
+  forall (start : Z) (a : Comments.doc) (t : Comments.tok)
+    (b : list Comments.tok),
+  Comments.split_at start d = Some (a, t :: b) ->
+  get_next s (P start) =
+  Ok (option_map (Pid Comments.t_id) match b with
+                                                | [] => None
+                                                | x :: _ => Some x
+                                                end) /\
+  get_prev s (P start) =
+  Ok
+    (option_map (Pid Comments.t_id)
+       match a with
+       | [] => None
+       | x :: r => Some (last r x)
+       end) /\
+  Comments.walk d start false = Some b /\
+  Comments.walk d start true = Some (rev a).
 Proof. exact StoreLinkComments.link_walk_step. Qed.
 
 Definition ex_cdoc : Comments.doc := map (fun i => Comments.mktok i Comments.KOther [] false) [1; 2; 3; 4; 5; 6; 7].
 Example C07_link_Comments_nonvacuous :
-  Inv ex_s /\ abs ex_s = map (Pid Comments.t_id) ex_cdoc /\ ids_pos Comments.t_id ex_cdoc /\
+  Inv ex_s /\ pure ex_s /\ abs ex_s = map (Pid Comments.t_id) ex_cdoc /\ ids_pos Comments.t_id ex_cdoc /\
   Comments.splice ex_cdoc (map (fun i => Comments.mktok i Comments.KOther [] false) [4; 3; 2]) 2 4
     = Some (map (fun i => Comments.mktok i Comments.KOther [] false) [1; 4; 3; 2; 5; 6; 7]).
 Proof.
-  split; [exact (proj1 ex_inv)|]. split; [rewrite (proj2 ex_inv); reflexivity|]. split; [|reflexivity].
+  split; [exact (proj1 ex_inv)|]. split; [exact ex_pure|]. split; [rewrite (proj2 ex_inv); reflexivity|]. split; [|reflexivity].
   unfold ids_pos, ex_cdoc. repeat constructor.
 Qed.
 
 (* position-based models: Spacing.v, NumExpr.v, Builder.v.  Their results are positional splices of the
    document, and the positional store call computes the same positional splice of abs s. *)
-Theorem C07_link_positional_call : forall LF s N p q s' r, 1 <= LF -> Inv s -> (p <= q <= length (abs s))%nat ->
-  NoDup N -> (forall t, In t N -> ~ In t (abs s)) ->
+
+Theorem C07_link_positional_call :
+  forall (LF : Z) (s : store) (N : list positive) (p q : nat) (s' : store) (r : res unit),
+  1 <= LF ->
+  Inv s ->
+  (p <= q <= length (abs s))%nat ->
+  NoDup N ->
+  (forall t : positive, In t N -> free s t) ->
   StoreLinkMisc.pos_call LF s N p q = (s', r) ->
-  r = Ok tt /\ Inv s' /\ abs s' = StoreLinkMisc.gsplice (abs s) N p q /\ (forall t, txt s' t = txt s t).
+  r = Ok tt /\
+  Inv s' /\
+  abs s' = StoreLinkMisc.gsplice (abs s) N p q /\
+  (forall t : positive, txt s' t = txt s t) /\ frames s s' N p q.
 Proof. exact StoreLinkMisc.pos_call_spec. Qed.
 
-Theorem C07_link_Spacing_set_after : forall d j new,
-  exists p q, (p <= q <= length d)%nat /\ Spacing.set_raw_spacing_after d j new = StoreLinkMisc.gsplice d new p q.
+Theorem C07_link_Spacing_set_after :
+  forall (d : list Spacing.tok) (j : nat) (new : list Spacing.tok),
+  exists p q : nat,
+    (p <= q <= length d)%nat /\
+    Spacing.set_raw_spacing_after d j new = StoreLinkMisc.gsplice d new p q.
 Proof. exact StoreLinkMisc.link_spacing_after. Qed.
-Theorem C07_link_Spacing_set_before : forall d i new,
-  exists p q, (p <= q <= length d)%nat /\ Spacing.set_raw_spacing_before d i new = StoreLinkMisc.gsplice d new p q.
+
+Theorem C07_link_Spacing_set_before :
+  forall (d : list Spacing.tok) (i : nat) (new : list Spacing.tok),
+  exists p q : nat,
+    (p <= q <= length d)%nat /\
+    Spacing.set_raw_spacing_before d i new = StoreLinkMisc.gsplice d new p q.
 Proof. exact StoreLinkMisc.link_spacing_before. Qed.
 
-Theorem C07_link_NumExpr_inplace : forall k self other r, NumExpr.inplace k self other = Ok r ->
-  exists L R, (L = [] \/ L = [NumExpr.TLp]) /\
-    NumExpr.store_toks r = NumExpr.pre self ++ L ++ NumExpr.re (NumExpr.body self) ++ R ++ NumExpr.post self /\
-    let p := length (NumExpr.pre self) in let q := (p + length (NumExpr.re (NumExpr.body self)))%nat in
-    NumExpr.store_toks r = StoreLinkMisc.gsplice (StoreLinkMisc.gsplice (NumExpr.store_toks self) R q q) L p p.
+Theorem C07_link_NumExpr_inplace :
+  forall (k : NumExpr.binop) (self other r : NumExpr.nexpr),
+  NumExpr.inplace k self other = Ok r ->
+  exists L R : list NumExpr.tok,
+    (L = [] \/ L = [NumExpr.TLp]) /\
+    NumExpr.store_toks r =
+    NumExpr.pre self ++
+    L ++ NumExpr.re (NumExpr.body self) ++ R ++ NumExpr.post self /\
+    (let p := length (NumExpr.pre self) in
+     let q := (p + length (NumExpr.re (NumExpr.body self)))%nat in
+     NumExpr.store_toks r =
+     StoreLinkMisc.gsplice (StoreLinkMisc.gsplice (NumExpr.store_toks self) R q q) L p p).
 Proof. exact StoreLinkMisc.link_numexpr_inplace. Qed.
 
-Theorem C07_link_Builder_store : forall LF tk built, 1 <= LF -> clean tk -> NoDup built ->
-  let s' := fst (insert_after LF (empty_store tk) None built) in
-  insert_after LF (empty_store tk) None built = (s', Ok tt) /\ Inv s' /\ abs s' = built /\
-  (forall k1 k2 a b, nth_error built k1 = Some a -> nth_error built k2 = Some b -> (k1 <= k2)%nat ->
-     iter_range s' a b = Ok (firstn (k2 + 1 - k1) (skipn k1 built))).
+Theorem C07_link_Builder_store :
+  forall (LF : Z) (sid : positive) (tk : tokmap) (built : list positive),
+  1 <= LF ->
+  clean tk ->
+  NoDup built ->
+  let s' := fst (insert_after LF (empty_store sid tk) None built) in
+  insert_after LF (empty_store sid tk) None built = (s', Ok tt) /\
+  Inv s' /\
+  abs s' = built /\
+  (forall (k1 k2 : nat) (a b : positive),
+   nth_error built k1 = Some a ->
+   nth_error built k2 = Some b ->
+   (k1 <= k2)%nat -> iter_range s' a b = Ok (firstn (k2 + 1 - k1) (skipn k1 built))).
 Proof. exact StoreLinkMisc.link_builder_store. Qed.
 
 Example C07_link_positional_nonvacuous : Inv ex_s /\ (2 <= 5 <= length (abs ex_s))%nat /\
-  NoDup [8; 9]%positive /\ (forall t, In t [8; 9]%positive -> ~ In t (abs ex_s)).
+  NoDup [8; 9]%positive /\ (forall t, In t [8; 9]%positive -> free ex_s t).
 Proof.
   split; [exact (proj1 ex_inv)|]. rewrite (proj2 ex_inv). split; [cbn; lia|].
-  split; [repeat constructor; cbn; intuition discriminate|]. intros t [<-|[<-|[]]]; cbn; intuition discriminate.
+  split; [repeat constructor; cbn; intuition discriminate|]. intros t [<-|[<-|[]]]; vm_compute; reflexivity.
 Qed.
